@@ -5,7 +5,7 @@
    child completed (all of them if it did not crash) are replayed here against Model/WQ.v, whose shutdown path is the
    code's.
    Black-box monitor on the log alone: no work function starts twice, and an item whose Enqueue was issued after the
-   Stop/Break never starts.  Model-relative: start sets and call results must be among the model's predictions. *)
+   Stop/Break never starts, and its Enqueue call has returned when its step ends (callers never hang).  Model-relative: start sets and call results must be among the model's predictions. *)
 From Coq Require Import List ZArith Bool Arith.
 From TC.Model Require Import WQ.
 From TC.Run Require Import RunLib.
@@ -24,8 +24,20 @@ Fixpoint late_ids (sc : list (stim * obs)) (k : Z) (stopped : bool) : list Z :=
   | _ :: r => late_ids r k stopped
   end.
 Definition all_started (c : wcase) : list Z := flat_map (fun so => o_started (snd so)) (c_script c).
+(* an Enqueue issued after Stop/Break returns normally: at the quiescent moment that ends its own step its call has
+   returned (a caller still blocked then stays blocked for ever: nothing else can move).  [k] as in late_ids.
+   A step whose result is 99 ("the process died here") carries no observation. *)
+Fixpoint late_enq_return (sc : list (stim * obs)) (k : Z) (stopped : bool) : bool :=
+  match sc with
+  | [] => true
+  | (SEnq _ _ _, o) :: r =>
+      (negb stopped || (o_res o =? 99)%Z || zmem k (o_returned o)) && late_enq_return r (k + 1)%Z stopped
+  | (SStop, _) :: r | (SBreak, _) :: r => late_enq_return r k true
+  | _ :: r => late_enq_return r k stopped
+  end.
 Definition mon_C19 (c : wcase) : bool :=
-  znodup (all_started c) && forallb (fun id => negb (zmem id (all_started c))) (late_ids (c_script c) 0%Z false).
+  znodup (all_started c) && forallb (fun id => negb (zmem id (all_started c))) (late_ids (c_script c) 0%Z false)
+  && late_enq_return (c_script c) 0%Z false.
 
 Definition case := wcase.
 Definition verdict (c : case) : nat := if mon_C19 c then classify rel_C19 c else 1.
